@@ -95,7 +95,8 @@ class OperatorTemplate(AbstractBaseTemplate):
         if variables:
             variables = _update_variables(self.variables, variables)
         else:
-            variables = self.variables
+            # copy: variables that are unused by the updated equations are popped below
+            variables = dict(self.variables)
 
         rogue_variables = set()
         for var in variables:
